@@ -86,8 +86,8 @@ Proof.
                   destruct (k_pending (k s)); try discriminate E;
                   destruct (k_ppc (k s)); try discriminate E; cbn [hs_pc] in IA; hs_std IA].
   (* session reset: no handshake is open any more *)
-  all: try solve [intros NF; split; [intros i n G; discriminate G
-                 |destruct (k_ppc (k s)); try exact I; try (intros _); cbn [amap_get]; discriminate]].
+  all: try solve [intros NF; split; [let G := fresh "G" in intros ? ? G; discriminate G
+                 |destruct (k_ppc (k s)); cbn [amap_get]; first [exact I|discriminate|intros _; discriminate]]].
   (* die body finished: the processor resumes at `after` *)
   all: try solve [specialize (O2 _ eq_refl); rewrite (C3 eq_refl) in IA; cbn [hs_pc] in IA;
                   destruct after; cbn [after_pc] in O2; try contradiction;
@@ -109,5 +109,33 @@ Proof.
   all: try solve [intros NF; destruct (IA NF) as [A1 A2];
                   destruct (incr_spec (g_hs (g s)) id (zeros_of _ A1)) as [S1 S2];
                   split; [exact S1|intros _; exact S2]].
-  Show.
-Admitted.
+Qed.
+
+(* all invariants so far, together *)
+Definition InvC (s : st) : Prop := InvWf s /\ InvCtl s /\ InvOwed s /\ InvHs s.
+
+Lemma InvC_reach es s : run step init es = Some s -> InvC s.
+Proof.
+  apply reach_inv.
+  - split; [apply InvWf_init|split; [apply InvCtl_init|split; [apply InvOwed_init|apply InvHs_init]]].
+  - intros s0 e s1 (HW & HC & HO & HH) Hs.
+    split; [eapply InvWf_step; eassumption|].
+    split; [eapply InvCtl_step; eassumption|].
+    split; [eapply InvOwed_step; eassumption|].
+    eapply InvHs_step; eassumption.
+Qed.
+
+Definition C10_exactly_once_partial_statement : Prop :=
+  forall es s, run step init es = Some s ->
+  g_compfail (g s) = false -> g_delfail (g s) = false ->
+  (forall id n, amap_get (g_hs (g s)) id = Some n -> n <= 1) /\
+  (forall pid id, k_ppc (k s) = PRelComp pid id -> default_mode s -> amap_get (g_hs (g s)) id <> Some 0).
+
+Theorem exactly_once_partial : C10_exactly_once_partial_statement.
+Proof.
+  intros es s Hr F1 F2. destruct (InvC_reach _ _ Hr) as (_ & _ & _ & HH).
+  destruct (HH (conj F1 F2)) as [A1 A2]. split.
+  - intros id n G. destruct (A1 id n G) as [->|[-> _]]; lia.
+  - intros pid id Hpc Hd. unfold hs_ctl in A2. rewrite Hpc in A2. apply A2. exact Hd.
+Qed.
+
